@@ -113,7 +113,16 @@ def notification(P, R):
                 defs = sv.local_defs(l['name'])
                 texts = [sx(d.ev.get('rhs') or d.ev.get('init')) for d in defs]
                 if any('strcmp(' in t and 'strcasecmp(' not in t and 'strncmp(' not in t for t in texts):
-                    kinds.append('plain: text differs')
+                    # ... and it compares the node's new text with the text it remembers (parsed.p_string), not with itself
+                    okops = False
+                    for d in defs:
+                        for x in walk(d.ev.get('rhs') or d.ev.get('init') or {}):
+                            if x.get('k') == 'callref' and x.get('callee') == 'strcmp' and len(x['args']) == 2:
+                                ops = [sv.expand_local(a, d) for a in x['args']]
+                                # a local that snapshots the node's value on entry is the node's value
+                                ops = [sv.single_def(a['name'])[1] if is_var(a) and sv.single_def(a['name']) else a for a in ops]
+                                okops = okops or (any(is_field(a, 'p_string') for a in ops) and any(is_field(a, 'value') for a in ops))
+                    kinds.append('plain: text differs' if okops else 'WRONG: the plain-text comparison does not compare the new text with the remembered one (parsed.p_string)')
                 elif any('cmp(' in t for t in texts):
                     kinds.append('WRONG: the plain-text comparison is not an exact strcmp, so some edits (e.g. letter case) are not seen as changes')
                 if any(is_field(d.ev.get('rhs') or d.ev.get('init') or {}, 'value') for d in defs):
@@ -250,7 +259,97 @@ def registration(P, R):
     R.floor('C15.MPT.2', 3)
 
 
+def load_merges(P, R, rule='C15.MPT.3'):
+    """A successful load always installs what it read: in conf_read every path through the setjmp()==0 branch that
+    ends normally calls the merge of the scratch tree into the live one (a load that "decides" the file need not be
+    applied leaves settings that differ from the file)."""
+    cr = P.need_fn('conf_read')
+    rv = P.need_fn('conf_replace_value')
+    merges = [s for s in cr.calls(rv.name)]
+    if not merges:
+        raise AnalysisBroken('conf_read does not call the merge')
+    n = 0
+    for b in cr.reachable_blocks():
+        for e in cr.out[b]:
+            if e.label == 'case' and e.vs and 0 in e.vs:
+                n += 1
+                p = cr.path_from_block(e.dst, lambda t: t.key in {m.key for m in merges})
+                R.ob(rule, p is None, merges[0], 'every normal path through the successful-parse branch of conf_read reaches the merge%s' % ('' if p is None else ' (a path avoids it: lines %s)' % cr.path_lines(p)), key='load-merges')
+    R.floor(rule, 1)
+    # history independence, structural part: the load keeps no state of its own between calls
+    unit = cr.unit
+    closure = [f for f in P.closure([cr], may=False).values() if f.unit == unit]
+    allowed = set()
+    for a in merges[0].ev['args']:
+        rvv = root_var(a)
+        if rvv is not None and rvv.get('sc') in ('static', 'global'):
+            allowed.add(rvv['name'])
+    k = 0
+    for f in closure:
+        for s in f.sites():
+            for lv in P.written_lvalues(s):
+                rvv = root_var(lv)
+                if rvv is None or rvv.get('sc') not in ('static', 'global'):
+                    continue
+                if rvv['name'] in allowed or 'log' in rvv['name']:
+                    continue
+                k += 1
+                R.ob('C15.WMC.1', False, s, '%s writes the static object %s while loading: the outcome of a load must depend on the file and the registered defaults only, not on earlier loads' % (f.name, rvv['name']), key='load-static:%s' % rvv['name'])
+    R.ob('C15.WMC.1', True, cr, 'scanned %d functions of the load closure for writes to static storage other than the live tree (%s): %d found' % (len(closure), sorted(allowed), k), key='scan', nontrivial=False)
+
+
+def removal_reports_change(P, R, rule='C15.MPT.4'):
+    """An object's hook runs when its membership changes: a child that is dropped from its parent makes the merge
+    return a non-zero constant (the parent's `modified`), on every path that removes it."""
+    rv = P.need_fn('conf_replace_value')
+    tgt = rv.params[0]
+    n = 0
+    for s in rv.calls('set_remove'):
+        if not any(is_var(x, tgt) for x in walk(s.ev['args'][1])):
+            continue
+        # returns reachable from the removal without another merge step
+        seen, work, rets = set(), [(s.bid, s.idx)], []
+        for t in rv.sites():
+            if t.ev['k'] == 'ret' and (t.bid in rv.reach([s.bid])) and (t.bid != s.bid or t.idx > s.idx):
+                rets.append(t)
+        for t in rets:
+            n += 1
+            v = rv.expand_local(t.ev.get('val'), t) if isinstance(t.ev.get('val'), dict) else t.ev.get('val')
+            c = const_of(v)
+            viacall = isinstance(t.ev.get('val'), dict) and t.ev['val'].get('k') == 'callref'
+            R.ob(rule, isinstance(c, int) and c != 0, t, 'after dropping the node from its parent the merge reports a change by returning a non-zero constant (returns %s)' % sx(t.ev.get('val')), key='removal-return')
+    R.floor(rule, 2, 'type-change replacement and leftover removal')
+
+
+def old_value_lifetime(P, R, rule='C15.UAF.1'):
+    """The string re-parser compares the new text with the previous one through parsed.p_string, which points into
+    the node's previous value: the previous value is released only after the last re-parse of that node."""
+    rv = P.need_fn('conf_replace_value')
+    psv = P.need_fn('conf_parse_string_value')
+    alias = any(t.ev['k'] == 'store' and any(is_field(x, 'p_string') for x in walk(t.ev['lhs'])) and is_field(t.ev.get('rhs'), 'value') for t in psv.stores())
+    reads = any(is_field(x, 'p_string') for t in psv.calls() for a in t.ev['args'] for x in walk(a))
+    if not (alias and reads):
+        R.ob(rule, True, psv, 'the re-parser no longer keeps a pointer into the previous text; nothing to order', key='no-alias', nontrivial=False)
+        return
+    n = 0
+    for s in rv.calls():
+        if s.ev.get('callee') not in ('xfree', 'free') or not s.ev['args'] or not is_var(s.ev['args'][0]):
+            continue
+        v = s.ev['args'][0]['name']
+        d = rv.single_def(v)
+        if not d or not is_field(d[1], 'value'):
+            continue
+        n += 1
+        later = [t for t in rv.calls(psv.name) if (t.bid == s.bid and t.idx > s.idx) or (t.bid != s.bid and t.bid in rv.reach([s.bid]) and not (s.bid in rv.reach([t.bid]) and False))]
+        later = [t for t in later if not (t.bid == s.bid and t.idx < s.idx)]
+        R.ob(rule, not later, later[0] if later else s, 'the previous text (%s) is released after the last re-parse of the string: no call of %s is reachable from the release' % (v, psv.name), key='old-value-free')
+    R.floor(rule, 1)
+
+
 def run(P, R, tier):
+    load_merges(P, R)
+    removal_reports_change(P, R)
+    old_value_lifetime(P, R)
     notification(P, R)
     exhaustive(P, R)
     removal_guard(P, R)
